@@ -455,6 +455,8 @@ class PyExec:
                 raise ArtefactError("KeyError", repr(idx))
             return base[idx]
         if isinstance(base, tuple) and isinstance(idx, int):
+            if not (-len(base) <= idx < len(base)):
+                raise ArtefactError("IndexError", "tuple index out of range")
             return base[idx]
         raise Unsupported("subscript")
 
@@ -612,6 +614,29 @@ class PyExec:
             return out
         if name in ("float64",):
             return self.as_num(args[0])
+        if name == "broadcast_arrays":
+            nums = [self.as_num(a) for a in args]
+            vec = any(x.vec for x in nums)
+            return [Num([x.cols[j] if x.vec else x.cols[0] for j in range(self.N if vec else 1)], vec) for x in nums]
+        if name in ("all", "any", "logical_and_reduce"):
+            seq = args[0]
+            axis = kw.get("axis", args[1] if len(args) > 1 else None)
+            if isinstance(seq, Num):
+                seq = [seq]
+            if not isinstance(seq, (list, tuple)):
+                raise Unsupported(f"numpy.{name} argument")
+            nums = [self.as_num(v) for v in seq]
+            f = c.and_ if name == "all" else c.or_
+            if axis == 0 and len(nums) >= 1 and not isinstance(args[0], Num):
+                vecs = [x.vec for x in nums]
+                if any(vecs) and not all(vecs):
+                    raise ArtefactError("ValueError", f"numpy.{name} over a ragged sequence")
+                return self.lift(f, *nums)
+            if axis is None:
+                # reduces over EVERY axis, including the batch axis: one truth value for the whole batch
+                allcols = [col for x in nums for col in x.cols]
+                return Num([f(*allcols)], False)
+            raise Unsupported(f"numpy.{name} with axis={axis!r}")
         raise Unsupported(f"numpy.{name}")
 
     def npreduce(self, name, args):
